@@ -3,6 +3,7 @@ package main
 // Coded models of library functions that the contract language cannot express.
 
 import (
+	"go/token"
 	"go/types"
 
 	"golang.org/x/tools/go/ssa"
@@ -12,4 +13,109 @@ type externFn func(fr *Frame, callee *ssa.Function, args []*Value, rt types.Type
 
 var externs = map[string]externFn{}
 
+func init() {
+	externs["io.ReadFull"] = extReadFull
+	externs["(*bytes.Buffer).Read"] = nil
+	delete(externs, "(*bytes.Buffer).Read")
+}
+
 func typesNewPointer(t types.Type) types.Type { return types.NewPointer(t) }
+
+// bufferType finds bytes.Buffer in the loaded program.
+func (e *Engine) bufferType() types.Type {
+	if e.bufT != nil {
+		return e.bufT
+	}
+	for _, p := range e.prog.AllPackages() {
+		if p.Pkg.Path() == "bytes" {
+			e.bufT = p.Pkg.Scope().Lookup("Buffer").Type()
+		}
+	}
+	return e.bufT
+}
+
+func (e *Engine) readerType() types.Type {
+	for _, p := range e.prog.AllPackages() {
+		if p.Pkg.Path() == "bytes" {
+			return p.Pkg.Scope().Lookup("Reader").Type()
+		}
+	}
+	return nil
+}
+
+// readerRef gives the ghost stream object of a reader value: every io.Reader is
+// modelled as a stream object with the ghost layout of bytes.Buffer.
+func (x *Exec) readerRef(v *Value) (ref Term, isBuf Term) {
+	bt := x.eng.bufferType()
+	if isIface(v.T) {
+		id := x.eng.typeID(types.NewPointer(bt))
+		isB := Eq(v.C[0], IntLit(int64(id)))
+		if rt := x.eng.readerType(); rt != nil {
+			isB = Or(isB, Eq(v.C[0], IntLit(int64(x.eng.typeID(types.NewPointer(rt))))))
+		}
+		return v.C[1], isB
+	}
+	return v.C[0], TTrue
+}
+
+func (x *Exec) readerSeq(st *State, v *Value) *SeqV {
+	bt := x.eng.bufferType()
+	if bt == nil {
+		sfail("bytes package not loaded")
+	}
+	if v.T == nil {
+		sfail("rd() of a non-program value")
+	}
+	ref, _ := x.readerRef(v)
+	g := x.Load(st, &Ptr{Heap: ref, RootT: bt})
+	x.ctx.Assume(And(Le(IntLit(0), g.C[1]), Le(IntLit(0), g.C[2]), Le(g.C[2], BigLit(pow2(40)))))
+	return rowSeq(x.ctx.Name("garr", g.C[0]), g.C[1], g.C[2])
+}
+
+// io.ReadFull(r, buf): on success exactly len(buf) bytes are moved from the
+// stream into buf; for a *bytes.Buffer it fails iff fewer bytes are available.
+func extReadFull(fr *Frame, callee *ssa.Function, args []*Value, rt types.Type) (*Value, bool) {
+	x := fr.x
+	c := x.ctx
+	e := x.eng
+	st := fr.cur
+	bt := e.bufferType()
+	if bt == nil {
+		return nil, false
+	}
+	r, buf := args[0], args[1]
+	fr.safety("nil", Neq(r.C[0], IntLit(0)), "nil-reader")
+	ref, isBuf := x.readerRef(r)
+	p := &Ptr{Heap: ref, RootT: bt}
+	g := x.Load(st, p)
+	arr, off, ln := c.Name("garr", g.C[0]), g.C[1], g.C[2]
+	c.Assume(And(Le(IntLit(0), off), Le(IntLit(0), ln), Le(ln, BigLit(pow2(40)))))
+	n := buf.C[2]
+	other := c.Fresh("readok", SBool)
+	ok := c.Name("rfok", And(Ge(ln, n), Or(isBuf, other)))
+	// buffer contents
+	bytT := buf.T.Underlying().(*types.Slice).Elem()
+	key, _ := e.heapKey("M", bytT, 0)
+	M := x.heapGet(st, key)
+	row := c.Name("rowB", Select(M, buf.C[0]))
+	okRow := fr.rangeCopy(row, buf.C[1], arr, off, n)
+	badRow := c.Fresh("rfrow", row.Sort)
+	c.Assume(e.rowRangeAxiom(key, badRow))
+	x.heapSetAt(st, key, c.Name("M", Store(M, buf.C[0], Ite(ok, okRow, badRow))), buf.C[0])
+	// stream
+	badLen := c.Fresh("rflen", SInt)
+	badOff := c.Fresh("rfoff", SInt)
+	c.Assume(And(Le(IntLit(0), badLen), Le(IntLit(0), badOff), Implies(isBuf, Eq(badLen, IntLit(0)))))
+	x.Store(st, p, &Value{T: bt, C: []Term{arr, c.Name("goff", Ite(ok, Add(off, n), badOff)), c.Name("glen", Ite(ok, Sub(ln, n), badLen))}})
+	// results
+	nres := c.Fresh("rfn", SInt)
+	c.Assume(And(Le(IntLit(0), nres), Le(nres, n), Implies(ok, Eq(nres, n)), Implies(Not(ok), Or(Lt(nres, n), Eq(n, IntLit(0))))))
+	errTag := c.Fresh("rferr", SInt)
+	errVal := c.Fresh("rferrv", SInt)
+	c.Assume(And(Le(IntLit(0), errTag), Le(IntLit(0), errVal), Iff(Eq(errTag, IntLit(0)), ok), Implies(Eq(errTag, IntLit(0)), Eq(errVal, IntLit(0)))))
+	x.cur.calls["io.ReadFull"]++
+	c.Trust("coded model of io.ReadFull: every io.Reader is a finite stream object; *bytes.Buffer fails iff too few bytes remain")
+	return &Value{T: rt, C: []Term{nres, errTag, errVal}}, true
+}
+
+var _ = token.ADD
